@@ -3,6 +3,7 @@
 Everything here runs the REAL implementation from $VERIF_REPO (PYTHONPATH).
 """
 import io
+import os
 import copy
 from collections import OrderedDict
 from fractions import Fraction
@@ -464,6 +465,13 @@ def randomise_video_parameters(vp, rng):
     if rng.random() < 0.5:
         vp["pixel_aspect_ratio_numer"], vp["pixel_aspect_ratio_denom"] = rng.choice(
             [(1, 1), (10, 11), (12, 11), (40, 33), (16, 11), (4, 3), (3, 2), (7, 5)])
+    # ratios need not be in lowest terms: the configured pair itself must survive, not an equivalent one
+    if rng.random() < 0.2:
+        k = rng.choice([2, 2, 3, 10, 1001])
+        vp["frame_rate_numer"], vp["frame_rate_denom"] = vp["frame_rate_numer"] * k, vp["frame_rate_denom"] * k
+    if rng.random() < 0.2:
+        k = rng.choice([2, 2, 3, 11])
+        vp["pixel_aspect_ratio_numer"], vp["pixel_aspect_ratio_denom"] = vp["pixel_aspect_ratio_numer"] * k, vp["pixel_aspect_ratio_denom"] * k
     if rng.random() < 0.4:
         w, h = vp["frame_width"], vp["frame_height"]
         cw, ch = rng.randint(1, w), rng.randint(1, h)
@@ -625,3 +633,27 @@ def _payload(rng):
     if mode == 1:
         return b"\xff" * n
     return bytes(rng.randrange(256) for _ in range(n))
+
+
+_corpus_cache = None
+
+
+def corpus_streams():
+    """Fixed conformant byte streams (corpus/C08/streams.jsonl, serialised once from the unmodified tree): many
+    configurations, re-packed slices, and sequences whose pictures/fragments use DIFFERENT transform parameters,
+    slice grids and quantisation matrices (state that must not leak from one picture to the next)."""
+    global _corpus_cache
+    if _corpus_cache is None:
+        import json
+        path = os.path.join(os.path.dirname(os.path.dirname(os.path.dirname(os.path.abspath(__file__)))), "corpus", "C08", "streams.jsonl")
+        out = []
+        try:
+            with open(path) as f:
+                for line in f:
+                    line = line.strip()
+                    if line:
+                        out.append(bytes.fromhex(json.loads(line)["hex"]))
+        except (OSError, ValueError, KeyError):
+            out = []
+        _corpus_cache = out
+    return _corpus_cache
